@@ -469,6 +469,8 @@ def run_case(case, ctx):
         return (tuple(m.basis_stack), len(m.basis_transformations), tuple(sorted(m.basis_registered)), bool(m._in_eigenbasis_of_context),
                 id(m.current_basis_operator))
 
+    shared_sbi = {}
+
     def create(Stot, kind=None):
         """create an object in the CURRENT basis; returns Obj with its site-basis reference"""
         kind = kind or str(rng.choice(KINDS))
@@ -502,10 +504,17 @@ def run_case(case, ctx):
                 d = rng.normal(size=(n, n, n, n)) + 0j
                 o = qm.SuperOperator(data=d.copy())
             elif kind in ("LindbladTensor", "LindbladOperators"):
-                hd = rsym(rng, n, "generic")
-                K = rng.normal(size=(n, n))
-                hh = qr.Hamiltonian(data=hd)
-                sbi = qm.SystemBathInteraction(sys_operators=[qm.Operator(data=K.copy())], rates=[float(rng.uniform(0.05, 0.5))])
+                if shared_sbi.get("sbi") is not None and rng.random() < 0.5 and numpy.allclose(Stot, numpy.eye(n)):
+                    # a second form built from the SAME system-bath interaction object (made at the same level)
+                    hh, sbi = shared_sbi["hh"], shared_sbi["sbi"]
+                    events.append("(shared-sbi)")
+                else:
+                    hd = rsym(rng, n, "generic")
+                    K = rng.normal(size=(n, n))
+                    hh = qr.Hamiltonian(data=hd)
+                    sbi = qm.SystemBathInteraction(sys_operators=[qm.Operator(data=K.copy())], rates=[float(rng.uniform(0.05, 0.5))])
+                    if numpy.allclose(Stot, numpy.eye(n)):
+                        shared_sbi["hh"], shared_sbi["sbi"] = hh, sbi
                 o = qm.LindbladForm(hh, sbi, as_operators=(kind == "LindbladOperators"))
                 if kind == "LindbladTensor":
                     d = numpy.array(o._data, copy=True)
